@@ -318,6 +318,10 @@ pub fn run_into(report: &mut Report, prop: &str, tier: &str, share: f64) {
             report.violation(m.clone(), json!({"engine": "sched-queue", "message": m}));
         }
     }
+    if CAPPED.load(std::sync::atomic::Ordering::Relaxed) {
+        exhaustive = false;
+        report.cov("capped", json!("an unbounded exploration of a small program hit its wall cap (more interleavings than expected: the code under test takes more shared-memory steps per call than the unchanged tree)"));
+    }
     report.add_cov_u64("states", tot_states.max(1));
     report.add_cov_u64("transitions", tot_steps.max(1));
     report.add_cov_u64("schedules", tot_exec);
@@ -369,12 +373,15 @@ fn explore_simple(
         }
         sched::children(0, w.prefix.len(), &out, None, &mut stack);
         if n % 1024 == 0 && start.elapsed() > cap {
-            msgs.push("machinery: wall cap reached in an exploration that is meant to be exhaustive".into());
+            CAPPED.store(true, std::sync::atomic::Ordering::Relaxed);
             break;
         }
     }
     (n, msgs)
 }
+
+/// set when an exploration that is meant to be exhaustive hit its wall cap
+pub static CAPPED: std::sync::atomic::AtomicBool = std::sync::atomic::AtomicBool::new(false);
 
 fn c14_generator(tier: &str, cap: Duration) -> (u64, u64, Vec<String>, Vec<Value>) {
     let shapes: Vec<(usize, usize)> = if tier == "quick" {
@@ -382,20 +389,30 @@ fn c14_generator(tier: &str, cap: Duration) -> (u64, u64, Vec<String>, Vec<Value
     } else {
         vec![(2, 1), (2, 2), (2, 3), (2, 4), (3, 1), (3, 2), (3, 3), (4, 1), (4, 2), (4, 3), (5, 2)]
     };
+    // asymmetric programs: one thread makes a single call while another makes many (a caller that keeps losing a race)
+    let asym: Vec<usize> = if tier == "quick" { vec![6, 10] } else { vec![6, 10, 12, 16] };
     let namespaces = [NS, Uuid::nil(), Uuid::from_u128(u128::MAX)];
     let results: Vec<(u64, u64, Vec<String>, Value)> = std::thread::scope(|sc| {
         let mut hs = vec![];
-        for (k, n) in shapes.iter().copied() {
+        let mut all_shapes: Vec<(usize, usize, usize)> = shapes.iter().map(|(k, n)| (*k, *n, *n)).collect();
+        for m in &asym {
+            all_shapes.push((2, 1, *m));
+        }
+        for (k, n_first, n) in all_shapes.iter().copied() {
             for ns in namespaces {
+                if n_first != n && ns != NS {
+                    continue;
+                }
                 hs.push(sc.spawn(move || {
                     sched::install_hook();
                     let make = move || {
                         let g = Rc::new(UuidGenerator::new(ns));
                         let got: Rc<RefCell<Vec<Uuid>>> = Rc::new(RefCell::new(vec![]));
                         let mut bodies: Vec<Box<dyn FnOnce()>> = vec![];
-                        for _ in 0..k {
+                        for t in 0..k {
                             let g = g.clone();
                             let got = got.clone();
+                            let n = if t == 0 { n_first } else { n };
                             bodies.push(Box::new(move || {
                                 for _ in 0..n {
                                     let id = g.next();
@@ -405,7 +422,7 @@ fn c14_generator(tier: &str, cap: Duration) -> (u64, u64, Vec<String>, Vec<Value
                         }
                         let check: Box<dyn FnOnce() -> Vec<String>> = Box::new(move || {
                             let ids = got.borrow().clone();
-                            let total = k * n;
+                            let total = n_first + (k - 1) * n;
                             let set: HashSet<Uuid> = ids.iter().copied().collect();
                             let expect: HashSet<Uuid> = (0..total)
                                 .map(|i| Uuid::new_v5(&ns, i.to_string().as_bytes()))
@@ -429,7 +446,7 @@ fn c14_generator(tier: &str, cap: Duration) -> (u64, u64, Vec<String>, Vec<Value
                     };
                     let (cnt, msgs) = explore_simple(&make, cap);
                     sched::uninstall_hook();
-                    (1u64, cnt, msgs, json!({"threads": k, "calls_per_thread": n, "namespace": ns.to_string(), "schedules": cnt}))
+                    (1u64, cnt, msgs, json!({"threads": k, "calls_first_thread": n_first, "calls_per_other_thread": n, "namespace": ns.to_string(), "schedules": cnt}))
                 }));
             }
         }
@@ -439,6 +456,57 @@ fn c14_generator(tier: &str, cap: Duration) -> (u64, u64, Vec<String>, Vec<Value
     let mut scheds = 0;
     let mut msgs = vec![];
     let mut smp = vec![];
+    // sequential sweep: every counter value 0..N, and every decimal-length boundary up to u64::MAX
+    {
+        let n: u64 = if tier == "quick" { 300_000 } else { 5_000_000 };
+        for ns in namespaces {
+            let g = UuidGenerator::new(ns);
+            let mut seen: HashSet<Uuid> = HashSet::with_capacity(n as usize);
+            for i in 0..n {
+                let id = g.next();
+                let want = Uuid::new_v5(&ns, i.to_string().as_bytes());
+                if id != want {
+                    msgs.push(format!("C14 sequential call number {i} returned {id}, not the name-based id of (namespace, {i}) - a replayed run would not reproduce its ids"));
+                    break;
+                }
+                if !seen.insert(id) {
+                    msgs.push(format!("C14 sequential call number {i} returned an id that an earlier call had returned"));
+                    break;
+                }
+            }
+            scheds += 1;
+        }
+        // a generator resumed (through its serde form) just below every power of ten and at the 64-bit limit
+        let mut starts: Vec<u64> = vec![];
+        let mut p: u64 = 10;
+        loop {
+            starts.push(p - 3);
+            match p.checked_mul(10) {
+                Some(x) => p = x,
+                None => break,
+            }
+        }
+        starts.extend([(1u64 << 32) - 3, (1u64 << 53) - 3, u64::MAX - 6]);
+        for st in starts {
+            let j = format!("{{\"namespace\":\"{}\",\"counter\":{}}}", NS, st);
+            match serde_json::from_str::<UuidGenerator>(&j) {
+                Ok(g) => {
+                    let mut got = HashSet::new();
+                    for k in 0..6u64 {
+                        let id = g.next();
+                        let want = Uuid::new_v5(&NS, (st + k).to_string().as_bytes());
+                        if id != want || !got.insert(id) {
+                            msgs.push(format!("C14 call with counter {} returned {id}, not the name-based id of that counter value", st + k));
+                            break;
+                        }
+                    }
+                    scheds += 1;
+                }
+                Err(e) => msgs.push(format!("machinery: cannot resume a generator from {j}: {e}")),
+            }
+        }
+        smp.push(json!({"sequential_calls_checked_per_namespace": n}));
+    }
     for (p, s, m, v) in results {
         progs += p;
         scheds += s;
